@@ -63,3 +63,8 @@ add("C02","exploration",
  "Held on the sessions counted in the evidence (pacing x size x files x limit x transport cells, distinct hook-order signatures).",
  "Trusted: /proc-based idle detection; finding c02.cmd-race is only accepted for multi-command sessions with suffix-only loss and a trace showing shutdown before a later command.",
  "DESIGN.md §2 C02")
+add("C07","exploration",
+ "runtime monitoring: real dcat/dgrep/dtail against fleets of 2-8 in-process servers with several files each, paced stdout; every source line carries its own host, file, number, length and CRC; oracle applied to every output line (complete record, checksum, attribution, per-source order)",
+ "Held on the output lines counted in the evidence (sources up to 8 servers x 5 files; source switches actually observed are counted).",
+ "Trusted: CRC32 self-description of the lines; host identity via DTAIL_HOSTNAME_OVERRIDE.",
+ "DESIGN.md §2 C07")
